@@ -142,6 +142,7 @@ type ContactState struct {
 	Ended    *SessionRec
 	Silent   bool
 	MsgCount int
+	LastSaid string // what the person wrote last (people repeat themselves)
 	dirty    bool // replica changed from outside since the session last saw it
 }
 
